@@ -65,7 +65,19 @@ class Report:
         self.exhaustive = False
         self.extra: dict = {}
         self.not_decided: list[str] = []
+        self.deferred: list[str] = []  # rules that could not be evaluated; an error unless another rule reports a violation
         self.t0 = time.time()
+
+    def guarded(self, fn, *args, **kw):
+        """Run one rule function; if it leaves the analysable subset, go on with the other rules (a violation they find is
+        still a violation; without one the run ends as ANALYSIS-ERROR)."""
+        n_rules = len(self.rules)
+        try:
+            return fn(*args, **kw)
+        except AnalysisError as exc:
+            del self.rules[n_rules:]  # a half-evaluated rule proves nothing
+            self.deferred.append(str(exc))
+            return None
 
     def rule(self, rid, title, floor=1) -> Rule:
         r = Rule(rid, title, floor)
@@ -161,6 +173,11 @@ def finish(rep: Report) -> int:
         shown_path = path.relative_to(VERIF) if str(path).startswith(str(VERIF)) else path
         print(f"VIOLATION property={prop} replay={shown_path}")
         samples.append(ob.as_dict("VIOLATED"))
+
+    if rep.deferred and not viol:
+        raise AnalysisError(rep.deferred[0])
+    for msg in rep.deferred:
+        print(f"note: a rule could not be evaluated on this tree: {msg}")
 
     level = "other"
     wall = round(time.time() - rep.t0, 3)
